@@ -179,22 +179,253 @@ def replay_delim(ck, rep, j, variants):
             b = batches.get(B)
             if b is None:
                 b = batches[B] = sr.PdfBatch(size=150, bufsiz=B)
-            tag = "p=%s ea=%s eb=%s B=%d len=%s" % ("".join(r["p"]) or "-", r["ea"], r["eb"] or "-", B, r["lf"])
+            tag = "p=%s ea=%s eb=%s B=%d len=%s" % ("".join(r["p"]) or "-", r["ea"], r["eb"] or "-", B, r["lk"])
             b.add({}, payload, payload, tag, ea=sr.EOLS[r["ea"]], eb=sr.EOLS[r["eb"]],
-                  indirect_length=(r["lf"] == "indirect"), marker=True)
-            nontriv = (set(r["p"]) - {"x"}) or r["lf"] == "indirect"
-            ck.case(2, ("delim", tuple(r["p"]), r["ea"], r["eb"], B, r["lf"]) if nontriv else None)
+                  indirect_length=(r["lk"] == "indirect"), marker=True)
+            nontriv = (set(r["p"]) - {"x"}) or r["lk"] == "indirect"
+            ck.case(2, ("delim", tuple(r["p"]), r["ea"], r["eb"], B, r["lk"]) if nontriv else None)
             if b.full():
                 flush(b)
         if n % 4000 == 1:
             ck.sample({"part": "StreamDelim", "payload_symbols": r["p"], "eol_after_keyword": r["ea"],
-                       "eol_before_endstream": r["eb"], "bufsiz": r["b"], "length": r["lf"],
+                       "eol_before_endstream": r["eb"], "bufsiz": r["b"], "length": r["lk"],
                        "realised_payload": sr.delim_payload(r["p"], n), "model_resume": r["resume"]})
     for b in batches.values():
         if b.items:
             flush(b)
     ck.replayed += n
     return n, drift
+
+
+# =============================================================================================== A+: wrong /Length, fallback
+def replay_delim_ext(ck, rep, j, variants):
+    """extended coverage: the real parser on every enumerated (payload, EOLs, /Length kind, delta, fallback) case;
+    compared with what StreamDelim.tla states is delivered (transcribed in streamreal.delivered, applied to the
+    real file); differences from the ideal `the payload` are counted per category, nothing is a C03 violation"""
+    from pdfminer.pdfdocument import PDFDocument
+    from pdfminer.pdfparser import PDFParser
+    from pdfminer.pdftypes import PDFStream
+    from pdfminer.psparser import PSBaseParser, PSKeyword
+    from ..realise.pdfwriter import Raw, Ref, Revision, build
+    groups = {}
+    stats = {"cases": 0, "delivered_as_stated": 0, "differs_from_statement": 0, "resume_as_stated": 0,
+             "resume_differs_from_statement": 0, "could_not_open": 0, "categories": {}}
+    examples = []
+
+    def cat(name):
+        stats["categories"][name] = stats["categories"].get(name, 0) + 1
+
+    def flush(key):
+        B, fb = key
+        items = groups.pop(key)
+        objs = {1: {"Type": Name("Catalog"), "Pages": Ref(2)}, 2: {"Type": Name("Pages"), "Kids": [], "Count": 0}}
+        nxt = 3
+        late = {}
+        meta = []
+        for (r, payload) in items:
+            lk, dl = r["lk"], r["dl"]
+            if lk == "missing":
+                ent = b""
+            elif lk == "indirect-missing":
+                ent = b"/Length 99999 0 R"
+            elif lk == "indirect":
+                late[nxt] = len(payload) + dl
+                ent = b"/Length %d 0 R" % (90000 + nxt)
+            else:
+                ent = b"/Length %d" % (len(payload) + dl)
+            body = b"<<" + ent + b">>\nstream" + sr.EOLS[r["ea"]] + payload + sr.EOLS[r["eb"]] + b"endstream"
+            objs[nxt] = Raw(body)
+            meta.append((nxt, r, payload))
+            objs[nxt + 1] = b"NEXT%d" % nxt
+            nxt += 2
+        remap = {}
+        for k, v in late.items():
+            remap[90000 + k] = nxt
+            objs[nxt] = v
+            nxt += 1
+        for k in list(objs):
+            if isinstance(objs[k], Raw):
+                b = bytes(objs[k])
+                for old, new in remap.items():
+                    b = b.replace(b"/Length %d 0 R" % old, b"/Length %d 0 R" % new)
+                objs[k] = Raw(b)
+        pdf, info = build([Revision(objs, root=Ref(1))], startxref_override=7 if fb else None)
+        offs = info["offsets"][0]
+        old = PSBaseParser.BUFSIZ
+        PSBaseParser.BUFSIZ = B
+        try:
+            try:
+                p = PDFParser(io.BytesIO(pdf))
+                doc = PDFDocument(p)
+            except Exception as e:      # noqa: BLE001 - the damaged file as a whole: C13's subject
+                stats["could_not_open"] += len(meta)
+                if len(examples) < 3:
+                    examples.append("document with B=%s fallback=%s could not be opened: %r" % (B, fb, e))
+                return
+            if bool(getattr(p, "fallback", False)) != fb:
+                raise MachineryError("realised document is %sin fallback mode" % ("not " if fb else ""))
+            for (objid, r, payload) in meta:
+                stats["cases"] += 1
+                start = pdf.index(b"stream", offs[objid]) + 6 + len(sr.EOLS[r["ea"]])
+                L = 0 if (fb or r["lk"] in ("missing", "indirect-missing")) else len(payload) + r["dl"]
+                want, want_resume = sr.delivered(pdf, start, L, fb)
+                try:
+                    st = doc.getobj(objid)
+                    got = st.get_data() if isinstance(st, PDFStream) else None
+                except Exception as e:   # noqa: BLE001
+                    got = None
+                    if len(examples) < 3:
+                        examples.append("getobj raised %r for %s" % (e, r))
+                if got == want:
+                    stats["delivered_as_stated"] += 1
+                else:
+                    stats["differs_from_statement"] += 1
+                    if len(examples) < 3:
+                        examples.append("delivered %r, stated %r for %s" % (got, want, {k: r[k] for k in ("p", "ea", "eb", "lk", "dl", "fb")}))
+                # where the parser goes on
+                try:
+                    p.seek(offs[objid])
+                    seq = []
+                    while len(seq) < 8 and not (seq and isinstance(seq[-1], PDFStream)):
+                        seq.append(p.nextobject()[1])
+                    (tpos, tok) = p.nexttoken()
+                    okr = tpos == want_resume and isinstance(tok, PSKeyword) and tok.name == b"endstream"
+                except Exception:        # noqa: BLE001
+                    okr = False
+                stats["resume_as_stated" if okr else "resume_differs_from_statement"] += 1
+                # against the ideal: the payload, and the parser at the stream's own endstream
+                ideal_resume = start + len(payload) + len(sr.EOLS[r["eb"]])
+                if got == payload and want_resume == ideal_resume:
+                    cat("payload delivered exactly")
+                elif got == payload:
+                    cat("payload exact, parser resumes elsewhere")
+                elif fb and got == payload + sr.EOLS[r["eb"]]:
+                    cat("fallback: end-of-line before endstream is part of the data")
+                elif fb:
+                    cat("fallback: payload cut at an embedded `endstream`")
+                elif r["lk"] in ("missing", "indirect-missing"):
+                    cat("no usable /Length: empty data")
+                elif r["dl"] < 0:
+                    cat("/Length too short: data truncated")
+                elif r["dl"] > 0:
+                    cat("/Length too long: data runs into endstream/endobj")
+                else:
+                    cat("other")
+                nontriv = r["dl"] != 0 or fb or r["lk"] != "direct"
+                ck.case(2, ("delim-ext", tuple(r["p"]), r["ea"], r["eb"], B, r["lk"], r["dl"], fb) if nontriv else None)
+        finally:
+            PSBaseParser.BUFSIZ = old
+
+    n = 0
+    for r in lines(j):
+        n += 1
+        for v in variants:
+            payload = sr.delim_payload_safe(r["p"], n + v)
+            key = (r["b"], r["fb"])
+            groups.setdefault(key, []).append((r, payload))
+            if len(groups[key]) >= 120:
+                flush(key)
+        if n % 5000 == 1:
+            ck.sample({"part": "StreamDelim (extended)", "payload_symbols": r["p"], "length_kind": r["lk"], "delta": r["dl"],
+                       "fallback": r["fb"], "model_delivers": bytes(r["data"]), "model_resume": r["resume"]})
+    for key in list(groups):
+        flush(key)
+    ck.replayed += n
+    stats["examples"] = examples
+    return n, stats
+
+
+# =============================================================================================== A+: Flate recovery
+def replay_flate(ck, rep, j, rng):
+    """extended coverage: decompress_corrupted on every enumerated stored-block stream, and on truncated /
+    bit-flipped deflate streams at real scale"""
+    import logging
+    from pdfminer import pdftypes
+    from pdfminer.psparser import LIT
+    if not hasattr(pdftypes, "decompress_corrupted"):
+        raise MachineryError("pdfminer.pdftypes.decompress_corrupted not found")
+    stats = {"cases": 0, "as_stated": 0, "differs_from_statement": 0, "warning_rule_differs": 0, "real_scale_cases": 0,
+             "real_scale_differs": 0}
+    examples = []
+    warns = []
+
+    class H(logging.Handler):
+        def emit(self, record):
+            if "Data-loss" in record.getMessage():
+                warns.append(1)
+
+    hd = H()
+    lg = logging.getLogger(pdftypes.__name__)
+    lg.addHandler(hd)
+    prev_disable = logging.root.manager.disable
+    logging.disable(logging.NOTSET)
+    old_level = lg.level
+    lg.setLevel(logging.WARNING)
+    try:
+        n = 0
+        for r in lines(j):
+            n += 1
+            for variant in (n, n + 1):
+                data, produced = sr.flate_stored(r["b"], tuple(r["f"]), variant)
+                # the abstract inflater must describe zlib itself on this stream (else the model is beside the point)
+                outs, k = sr.zlib_bytewise(data)
+                vals = {(b, i): v for (b, i, v) in produced}
+                want = bytes(vals[(e[1], e[2])] for e in r["r"])
+                if k != r["k"] and not (r["k"] >= len(data) and k == -1):
+                    raise MachineryError("zlib fails at byte %s of %s, the abstract inflater says %s (%r)" % (k, data.hex(), r["k"], r["f"]))
+                if b"".join(outs) != want or len(data) != r["n"]:
+                    raise MachineryError("zlib put out %r on %s, the abstract inflater says %r" % (b"".join(outs), data.hex(), want))
+                stats["cases"] += 1
+                del warns[:]
+                try:
+                    got = pdftypes.PDFStream({"Filter": LIT("FlateDecode")}, data).get_data()
+                except Exception as e:   # noqa: BLE001
+                    got = repr(e)
+                if got == want:
+                    stats["as_stated"] += 1
+                else:
+                    stats["differs_from_statement"] += 1
+                    if len(examples) < 3:
+                        examples.append("stream %s (%r): delivered %r, inflate had produced %r" % (data.hex(), r["f"], got, want))
+                if bool(warns) != bool(r["w"]):
+                    stats["warning_rule_differs"] += 1
+                ck.case(1, ("flate", tuple(r["b"]), tuple(r["f"]), variant % 6) if r["f"][0] != "none" else None)
+            if n % 100 == 1:
+                ck.sample({"part": "Flate (extended)", "blocks": r["b"], "fault": r["f"], "data": data, "inflate_fails_at": r["k"],
+                           "delivered": got, "stated": want, "warned": bool(warns)})
+        ck.replayed += n
+        # real scale: deflate-compressed payloads, truncated and bit-flipped
+        payloads = [b"BT /F1 12 Tf (Hello) Tj ET\n" * 40, bytes(rng.randrange(256) for _ in range(3000)),
+                    bytes(rng.choice(b"ab \n") for _ in range(5000)), b""]
+        for pl in payloads:
+            z = zlib.compress(pl, 6)
+            cuts = sorted(set([0, 1, 2, 3, len(z) - 5, len(z) - 4, len(z) - 3, len(z) - 2, len(z) - 1] +
+                              [rng.randrange(len(z)) for _ in range(30)]))
+            cases = [z[:c] for c in cuts if 0 <= c < len(z)]
+            for c in cuts:
+                if 0 <= c < len(z):
+                    t = bytearray(z)
+                    t[c] ^= 1 << rng.randrange(8)
+                    cases.append(bytes(t))
+            for data in cases:
+                want, _k = sr.inflate_longest_prefix(data)
+                try:
+                    got = pdftypes.PDFStream({"Filter": LIT("Fl")}, data).get_data()
+                except Exception as e:   # noqa: BLE001
+                    got = repr(e)
+                stats["real_scale_cases"] += 1
+                ck.case(1, ("flate-scale", data[:64], len(data)))
+                if got != want:
+                    stats["real_scale_differs"] += 1
+                    if len(examples) < 3:
+                        examples.append("%d-byte damaged deflate stream: delivered %d bytes, inflate had produced %d"
+                                        % (len(data), len(got) if isinstance(got, bytes) else -1, len(want)))
+    finally:
+        lg.removeHandler(hd)
+        lg.setLevel(old_level)
+        logging.disable(prev_disable)
+    stats["examples"] = examples
+    return n, stats
 
 
 # =============================================================================================== A: FilterChain
@@ -310,58 +541,78 @@ def replay_chain(ck, rep, j, stride_pdf, traces, trace_stride):
 
 
 # =============================================================================================== A: LZW
-def replay_lzw(ck, rep, j, alpha, minbits, maps, batch, want):
+TRAIL_REAL = {0: b"\x00", 3: b"\xff", 1: b"\n", 2: b"\r"}
+
+
+def replay_lzw(ck, rep, j, alpha, minbits, maps, batch, want, dev):
     from pdfminer.lzw import lzwdecode
     n = 0
     drift = 0
     seen = set()
 
+    def judge(payload, got, exc, trail, what, replay):
+        if got == payload:
+            return True
+        if trail and "LzwEodContinues" in dev:
+            rep("dev:LzwEodContinues", "LZW data followed by %r after EOD decoded to %r instead of %r"
+                % (trail, (got or b"")[-12:], payload[-12:]), None)
+            return False
+        kind = "exc:" + excname(exc) if exc is not None else "wrong-bytes"
+        rep("lzw:" + kind, what % ((got or b"")[:30], payload[:30]), replay)
+        return False
+
     def on_result(tag, exp, got, exc, objid, pdf):
-        if got != exp:
-            kind = "exc:" + excname(exc) if exc is not None else "wrong-bytes"
-            rep("lzw:" + kind, "LZW stream in a PDF decoded to %r instead of %r [%s]" % ((got or b"")[:30], exp[:30], tag),
-                {"part": "pdf", "pdf": pdf, "objid": objid, "expected": exp})
+        judge(exp, got, exc, tag[1], "LZW stream in a PDF decoded to %r instead of %r [" + tag[0] + "]",
+              {"part": "pdf", "pdf": pdf, "objid": objid, "expected": exp})
 
     for r in lines(j):
         n += 1
         h = r["h"]
-        if any(e[1] > minbits for e in h):
+        # the writer's codes end with EOD (or with the data); what the as-coded model reads after EOD is not the writer's
+        k_eod = next((i for i, e in enumerate(h) if e[2] == "eod"), len(h) - 1)
+        hw = h[:k_eod + 1]
+        if any(e[1] > minbits for e in hw):
             seen.add("width")
-        if sum(1 for e in h if e[2] == "clear") > 1 + (1 if r["xc"] else 0):
+        if sum(1 for e in hw if e[2] == "clear") > 1 + (1 if r["xc"] else 0):
             seen.add("full")
-        if any(e[2] == "kwkwk" for e in h):
+        if any(e[2] == "kwkwk" for e in hw):
             seen.add("kwkwk")
-        if r["o"] != r["x"] or r["e"] != "none":
+        if r["ec"] == 0:
+            seen.add("ec0")
+        if r["tr"]:
+            seen.add("trail")
+        if (r["o"] != r["x"] or r["e"] != "none") and not r["trig"]:
             drift += 1
         for mi in maps(n):
             m = sr.LZW_MAPS[mi]
             payload = bytes(m[s] for s in r["x"])
-            codes = sr.lzw_real_codes(h, alpha, m)
-            enc = cd.lzw_pack(codes)
-            got, exc, ev = so.lzw_events(enc)
-            if got != payload:
-                kind = "exc:" + exc if exc else "wrong-bytes"
-                rep("lzw:" + kind, "LZW codes %r decoded to %r instead of %r" % (codes[:24], (got or b"")[:30], payload[:30]),
-                    {"part": "lzw", "enc": enc, "expected": payload})
-            elif [e["o"] for e in ev] != [e[3] for e in h] or [e["c"] for e in ev] != codes:
+            codes = sr.lzw_real_codes(hw, alpha, m)
+            trail = b"".join(TRAIL_REAL[b] for b in r["tr"])
+            enc = cd.lzw_pack(codes, r["ec"]) + trail
+            got, exc, ev = so.lzw_events(enc, r["ec"])
+            ok = judge(payload, got, Exception(exc) if exc else None, trail,
+                       "LZW codes " + repr(codes[:24]) + " decoded to %r instead of %r", {"part": "lzw", "enc": enc, "expected": payload})
+            if ok and not trail and ([e["o"] for e in ev] != [e[3] for e in hw] or [e["c"] for e in ev] != codes):
                 drift += 1
                 if drift <= 3:
-                    ck.note("LZW drift: per-code outputs %r, model %r" % ([e["o"] for e in ev][:20], [e[3] for e in h][:20]))
-            enc2 = cd.lzw_encode(payload, extra_clears=(r["xc"],) if r["xc"] else (), eod=r["eod"])
+                    ck.note("LZW drift: per-code outputs %r, model %r" % ([e["o"] for e in ev][:20], [e[3] for e in hw][:20]))
+            enc2 = cd.lzw_encode(payload, extra_clears=(r["xc"],) if r["xc"] else (), eod=r["eod"], ec=r["ec"])
             try:
                 got2, exc2 = lzwdecode(enc2), None
             except Exception as e:      # noqa: BLE001
                 got2, exc2 = None, e
-            if got2 != payload:
-                kind = "exc:" + excname(exc2) if exc2 is not None else "wrong-bytes"
-                rep("lzw:" + kind, "greedy LZW encoding of %r decoded to %r" % (payload[:30], (got2 or b"")[:30]),
-                    {"part": "lzw", "enc": enc2, "expected": payload})
-            batch.add({"Filter": Name(("LZWDecode", "LZW")[n % 2])}, enc, payload, "codes=%r" % (codes[:16],))
-            ck.case(3, ("lzw", alpha, minbits, tuple(r["x"]), r["xc"], r["eod"], mi) if len(h) > 3 else None)
+            judge(payload, got2, exc2, b"", "greedy LZW encoding decoded to %r instead of %r", {"part": "lzw", "enc": enc2, "expected": payload})
+            attrs = {"Filter": Name(("LZWDecode", "LZW")[n % 2])}
+            if r["ec"] == 0:
+                attrs["DecodeParms"] = {"EarlyChange": batch.alloc(0) if n % 4 < 2 else 0}
+            batch.add(attrs, enc, payload, ("codes=%r" % (codes[:16],), trail))
+            ck.case(3, ("lzw", alpha, minbits, tuple(r["x"]), r["xc"], r["eod"], r["ec"], r["df"], tuple(r["tr"]), mi)
+                    if len(hw) > 3 else None)
             if batch.full():
                 batch.run(on_result)
         if n % 3000 == 1:
-            ck.sample({"part": "LZW", "model_input": r["x"], "model_codes": [[e[0], e[1], e[2]] for e in h][:24],
+            ck.sample({"part": "LZW", "model_input": r["x"], "early_change": r["ec"], "deferred_clear": r["df"],
+                       "bytes_after_eod": r["tr"], "model_codes": [[e[0], e[1], e[2]] for e in hw][:24],
                        "realised_payload": payload, "real_code_sequence": codes[:24], "decoded": got})
     batch.run(on_result)
     miss = set(want) - seen
@@ -647,22 +898,48 @@ def record_traces(ck, rep, dev, rng, chain_traces):
     if ck.tier == "quick":
         samples = samples[:10]
     for idx, (origin, data) in enumerate(corpus + samples):
-        # ---- LZW: greedy, early table clear (4094), an extra clear, no EOD
+        # ---- LZW: greedy, early table clear (4094), an extra clear, no EOD; /EarlyChange 0; deferred clear
         variants = [dict()] if idx % 3 else [dict(), dict(clear_at=4094), dict(extra_clears=(len(data) // 2,)), dict(eod=False)]
         if ck.tier == "quick" and len(data) > 10000:
             variants = variants[:2]
+        if idx % 4 == 1 or idx == 0:
+            variants = variants + [dict(ec=0)]
+        if idx == 0:
+            variants = variants + [dict(defer=None), dict(defer=700, ec=0)]
         for kw in variants:
+            ec = kw.get("ec", 1)
             enc = cd.lzw_encode(data, **kw)
-            got, exc, ev = so.lzw_events(enc)
+            got, exc, ev = so.lzw_events(enc, ec)
             ck.case(1, ("B-lzw", origin, json.dumps(kw, sort_keys=True)))
             if got != data:
+                if ec == 0 and "LzwEarlyChangeIgnored" in dev and len(ev) > 250:
+                    rep("dev:LzwEarlyChangeIgnored", "LZW stream of %s (%d bytes) written with /EarlyChange 0 decoded wrongly"
+                        % (origin, len(data)), None)
+                    continue
                 kind = "exc:" + exc if exc else "wrong-bytes"
                 rep("lzw:" + kind, "LZW round trip of %s (%d bytes, %r) failed" % (origin, len(data), kw),
-                    {"part": "lzw", "enc": enc, "expected": data})
+                    {"part": "lzw", "enc": enc, "expected": data, "ec": ec})
                 continue
             if budget["lzw"] > 0:       # (every round trip is compared above; TLC validates traces up to a budget of events)
                 budget["lzw"] -= len(ev)
-                lzw.append({"ev": ev, "total": len(data), "origin": origin + " " + json.dumps(kw)})
+                lzw.append({"ev": ev, "total": len(data), "ec": ec, "defer": "defer" in kw,
+                            "origin": origin + " " + json.dumps(kw)})
+        if idx % 5 == 0 and data:
+            # data after EOD (an end-of-line counted into /Length, or anything else) must not be decoded
+            for trail in (b"\n", b"\r\n", b"\x00\x00"):
+                enc = cd.lzw_encode(data) + trail
+                got, exc, ev = so.lzw_events(enc)
+                ck.case(1, ("B-lzw-trail", origin, trail))
+                if got != data:
+                    if "LzwEodContinues" in dev:
+                        rep("dev:LzwEodContinues", "LZW stream of %s followed by %r after EOD decoded to %d bytes instead of %d"
+                            % (origin, trail, len(got or b""), len(data)), None)
+                    else:
+                        rep("lzw:after-eod", "LZW stream of %s followed by %r after EOD decoded wrongly" % (origin, trail),
+                            {"part": "lzw", "enc": enc, "expected": data})
+                elif budget["lzw"] > 0:
+                    budget["lzw"] -= len(ev)
+                    lzw.append({"ev": ev, "total": len(data), "ec": 1, "defer": False, "origin": origin + " +trail"})
         # ---- RunLength: greedy and a random legal segmentation
         for rr in (None, random.Random(idx)):
             enc = cd.rl_encode(data, rr, eod=(idx % 2 == 0))
@@ -707,6 +984,30 @@ def record_traces(ck, rep, dev, rng, chain_traces):
                 budget["pred"] -= len(ev)
                 pred.append({"kind": kind, "colors": c, "columns": k, "bits": b, "enc": list(enc),
                              "rows": [{"ty": e["ty"], "raw": e["raw"]} for e in ev], "origin": origin})
+    if ck.tier == "thorough":
+        # ---- 12-bit table-full with /EarlyChange both ways, clear at once / deferred / never (real constants)
+        big = bytes(rng.randrange(256) for _ in range(9000))
+        budget["lzw"] = max(budget["lzw"], 0) + 400000
+        for ec in (1, 0):
+            for defer in (0, 5, 900, None):
+                for data in (big, big[:4200], bytes(rng.choice(b"abc") for _ in range(60000))):
+                    kw = dict(ec=ec, defer=defer)
+                    enc = cd.lzw_encode(data, **kw)
+                    got, exc, ev = so.lzw_events(enc, ec)
+                    origin = "table-full %d bytes %r" % (len(data), kw)
+                    ck.case(1, ("B-lzw-full", len(data), ec, defer))
+                    if got != data:
+                        if ec == 0 and "LzwEarlyChangeIgnored" in dev:
+                            rep("dev:LzwEarlyChangeIgnored", "LZW stream (%s) decoded wrongly" % origin, None)
+                        else:
+                            rep("lzw:" + ("exc:" + exc if exc else "wrong-bytes"), "LZW round trip (%s) failed" % origin,
+                                {"part": "lzw", "enc": enc, "expected": data, "ec": ec})
+                        continue
+                    if max(e["t"] for e in ev) < 4095:
+                        raise MachineryError("table-full corpus did not fill the table (%s)" % origin)
+                    if budget["lzw"] > 0 and len(ev) < (12000 if defer != 0 else 30000):
+                        budget["lzw"] -= len(ev)
+                        lzw.append({"ev": ev, "total": len(data), "ec": ec, "defer": defer != 0, "origin": origin})
     # ---- PNG predictor inputs that touch the known deviations, at real scale (classified, not traced)
     for (c, k, b, t0) in ((3, 40, 8, 2), (3, 40, 8, 3), (4, 25, 8, 4), (1, 10, 1, 0), (1, 16, 1, 1)):
         rlen = cd.row_length(c, k, b)
@@ -905,9 +1206,13 @@ def task(kind, init, jobinfo, params):
         elif kind == "lzw":
             nm = params["maps"]
             maps = (lambda n: tuple((n + i) % 4 for i in range(nm)))
-            _n, out["drift"] = replay_lzw(ck, rep, j, 2, 3, maps, batch, params["want"])
+            _n, out["drift"] = replay_lzw(ck, rep, j, 2, 3, maps, batch, params["want"], dev)
         elif kind == "rl":
             _n, out["drift"] = replay_rl(ck, rep, j, params["H"], batch)
+        elif kind == "sdx":
+            _n, out["ext"] = replay_delim_ext(ck, rep, j, params["variants"])
+        elif kind == "fl":
+            _n, out["ext"] = replay_flate(ck, rep, j, random.Random(ck.seed))
         elif kind == "af":
             _n, out["drift"] = replay_ascii(ck, rep, j, dev, batch)
         elif kind == "pr":
@@ -919,6 +1224,28 @@ def task(kind, init, jobinfo, params):
             raise MachineryError("unknown task " + kind)
     out["log"] = ck.dump()
     return out
+
+
+def report_extended(ck, ext):
+    """extended coverage is reported as NOTEs: C03 promises nothing for a wrong /Length or damaged Flate data"""
+    sl = ext.get("stream_length_and_fallback")
+    if sl:
+        ck.note("extended coverage (wrong/missing /Length, fallback mode): %d cases; delivered as StreamDelim.tla states in %d, "
+                "differently in %d; parser resumes as stated in %d, differently in %d; %d cases in documents that could not be opened"
+                % (sl["cases"], sl["delivered_as_stated"], sl["differs_from_statement"], sl["resume_as_stated"],
+                   sl["resume_differs_from_statement"], sl["could_not_open"]))
+        ck.note("extended coverage, against `the payload up to the EOL before endstream`: "
+                + "; ".join("%s: %d" % kv for kv in sorted(sl["categories"].items())))
+        for e in sl["examples"]:
+            ck.note("extended coverage example: " + e[:300])
+    fl = ext.get("flate_recovery")
+    if fl:
+        ck.note("extended coverage (Flate recovery): %d enumerated damaged streams, result = bytes inflate produced before the "
+                "failure in %d, differs in %d, warning rule differs in %d; %d damaged deflate streams at real scale, differs in %d"
+                % (fl["cases"], fl["as_stated"], fl["differs_from_statement"], fl["warning_rule_differs"],
+                   fl["real_scale_cases"], fl["real_scale_differs"]))
+        for e in fl["examples"]:
+            ck.note("extended coverage example: " + e[:300])
 
 
 # =============================================================================================== run
@@ -945,23 +1272,41 @@ def run(ck):
     asc_dev = [d for d in dev if d.endswith("WhiteSpace")]
     # ------------------------------------------------------------------ TLC jobs (run concurrently)
     sd_c = {"Syms": '{"x", "CR", "LF", "NUL", "ES", "EO"}', "MaxLen": 3 if quick else 4, "EolAfter": '{"LF", "CRLF"}',
-            "EolBefore": '{"", "LF", "CR", "CRLF"}', "BufSizes": "{2, 5, 64}", "LenForms": '{"direct", "indirect"}'}
-    lz = lambda mx, ml, pre: {"Alpha": 2, "MinBits": 3, "MaxBits": mx, "ByteBits": 2, "MaxLen": ml,       # noqa: E731
-                              "Prefix": "<- " + pre, "EODs": "{TRUE, FALSE}"}
+            "EolBefore": '{"", "LF", "CR", "CRLF"}', "BufSizes": "{2, 5, 64}", "LenKinds": '{"direct", "indirect"}',
+            "Deltas": "<- DeltasExact", "Fallbacks": "{FALSE}"}
+    lzw_dev = [d for d in dev if d.startswith("Lzw")]
+
+    def lz(mx, ml, pre, d="{}", eods="{TRUE, FALSE}", ecs="{1}", defers="{0}", trails="{0}"):
+        return {"Alpha": 2, "MinBits": 3, "MaxBits": mx, "ByteBits": 2, "MaxLen": ml, "Prefix": "<- " + pre, "EODs": eods,
+                "ECs": ecs, "Defers": defers, "Trails": trails, "TrailBytes": "{0, 3}", "Dev": d}
     lzw_inv = ["Inverts", "PrefixOK", "WidthSwitchOK", "TableBound", "NoError"]
+    # F: 3-bit codes only (table-full, clear at once / deferred / never); W: 3..4 bits (/EarlyChange both ways,
+    # bytes after EOD); WF: prefix that fills the table (width switch, table-full, deferred clear, both /EarlyChange)
+    lzF = dict(mx=3, ml=8 if quick else 10, pre="PrefixNone", eods="{TRUE}" if quick else "{TRUE, FALSE}",
+               defers="{0, 99}" if quick else "{0, 2, 99}")
+    lzW = dict(mx=4, ml=6 if quick else 9, pre="PrefixNone", ecs="{0, 1}", trails="{0, 1}" if quick else "{0, 1, 2}")
+    lzWF = dict(mx=4, ml=3 if quick else 6, pre="PrefixWF", ecs="{0, 1}", defers="{0, 99}" if quick else "{0, 3, 99}")
     af_c = lambda d: {"Dev": d, "HexBytes": "{0, 74, 160, 255}", "HexMaxLen": 2 if quick else 3,          # noqa: E731
                       "WSChoice": "{32, 10, 13, 9, 12, 0}", "A85MaxGroups": 2}
     pr_c = lambda d, g: {"Dev": d, "Geoms": "<- " + g, "Vals": "{0, 1, 255}", "ValsBig": "{1, 255}",      # noqa: E731
                          "SmallBytes": 4 if quick else 8, "Types": "{0, 1, 2, 3, 4}"}
     geoms = "GeomsQuick" if quick else "GeomsFull"
     jobs = {
-        "sd": Job("StreamDelim", "StreamDelim", sd_c, ["PayloadExact", "ResumeOK", "BufferOK"], ["NlProgress"], emit=True,
+        "sd": Job("StreamDelim", "MC_StreamDelim", sd_c, ["PayloadExact", "ResumeOK", "BufferOK"], ["NlProgress"], emit=True,
                   coverage=quick),
         "fc": Job("FilterChain", "MC_FilterChain", {"Layers": "<- LayersAll", "MaxChain": 2 if quick else 3},
                   ["ChainInverts", "PeelsInOrder", "CallsMatch", "CallsAsPredicted"], emit=True, coverage=quick),
-        "lzwF": Job("LZW_full", "MC_LZW", lz(3, 8 if quick else 10, "PrefixNone"), lzw_inv, emit=True, coverage=quick),
-        "lzwW": Job("LZW_width", "MC_LZW", lz(4, 7 if quick else 10, "PrefixNone"), lzw_inv, emit=True, coverage=quick),
-        "lzwWF": Job("LZW_width_full", "MC_LZW", lz(4, 4 if quick else 7, "PrefixWF"), lzw_inv, emit=True, coverage=quick),
+        "lzwF": Job("LZW_full", "MC_LZW", lz(**lzF), lzw_inv, emit=True, coverage=quick),
+        "lzwW": Job("LZW_width", "MC_LZW", lz(**lzW), lzw_inv, emit=not lzw_dev, coverage=quick),
+        "lzwWF": Job("LZW_width_full", "MC_LZW", lz(**lzWF), lzw_inv, emit=not lzw_dev, coverage=quick),
+        "sdx": Job("StreamDelim_wrong_length", "MC_StreamDelim",
+                   dict(sd_c, MaxLen=2 if quick else 3, BufSizes="{5}" if quick else "{2, 5, 64}",
+                        LenKinds='{"direct", "indirect", "missing", "indirect-missing"}', Deltas="<- DeltasWrong",
+                        Fallbacks="{TRUE, FALSE}"),
+                   ["PayloadExact", "ResumeOK", "BufferOK", "DeliveredAsStated", "FallbackStatement", "MissingStatement",
+                    "WrongLengthStatement"], ["NlProgress"], emit=True),
+        "fl": Job("Flate_recovery", "Flate", {"MaxBlocks": 2 if quick else 3, "MaxLit": 2 if quick else 3},
+                  ["RecoveredPrefix", "WarnRule", "ChecksumIgnored"], ["Progress"], emit=True, coverage=quick),
         "rl3": Job("RunLength_H3", "RunLength", {"H": 3, "Bytes": "{0, 1, 2, 3, 4, 5}", "MaxLen": 4 if quick else 5,
                                                  "EODs": "{TRUE, FALSE}"},
                    ["Inverts", "PrefixOK", "RunsOK", "PosOK"], emit=True, coverage=quick),
@@ -972,6 +1317,11 @@ def run(ck):
         "pr": Job("Predictor_intended", "MC_Predictor", pr_c("<- NoDev", geoms), ["Inverts", "RowLengthOK", "RefInverts"],
                   emit=not png_dev),
     }
+    if lzw_dev:
+        ld = tla_set(lzw_dev)
+        jobs["lzwWc"] = Job("LZW_width_as_coded", "MC_LZW", lz(d=ld, **lzW), ["InvertsUnlessDev", "TableBound"], emit=True)
+        jobs["lzwWFc"] = Job("LZW_width_full_as_coded", "MC_LZW", lz(d=ld, **lzWF), ["InvertsUnlessDev"], emit=True)
+        jobs["lzwr"] = Job("LZW_as_coded_refuted", "MC_LZW", lz(d=ld, **dict(lzW, ml=5)), ["Inverts", "WidthSwitchOK"])
     if asc_dev:
         jobs["afc"] = Job("AsciiFrame_as_coded", "AsciiFrame", af_c(tla_set(asc_dev)), [], emit=True)
         jobs["afr"] = Job("AsciiFrame_as_coded_refuted", "AsciiFrame", af_c(tla_set(asc_dev)), ["Inverts"])
@@ -984,7 +1334,8 @@ def run(ck):
     procs = ProcessPoolExecutor(max_workers=7, mp_context=multiprocessing.get_context("spawn"))
     init = {"pid": ck.pid, "tier": ck.tier, "seed": ck.seed, "tmp": ck.tmp, "known": ck.known_keys()}
     tf = procs.submit(task, "traces", init, None, {"dev": dev})
-    order = ["pr", "prc", "sd", "fc", "lzwF", "lzwW", "lzwWF", "rl3", "rl2", "af", "afc", "afr", "prr"]
+    order = ["pr", "prc", "sd", "fc", "lzwF", "lzwW", "lzwWc", "lzwWF", "lzwWFc", "sdx", "rl3", "rl2", "af", "afc", "afr",
+             "prr", "lzwr", "fl"]
     futs = {k: pool.submit(run_job, ck, jobs[k]) for k in order if k in jobs}
     cov = {"sd": ["AKeyword", "AResolveLength", "ASeekKeyword", "ANlFill", "ANlSearch", "ANlAfterCR", "AReadPayload",
                   "AScanLine", "APushStream"],
@@ -992,14 +1343,16 @@ def run(ck):
            "lzwF": ["ARead", "AClear", "AClearAgain", "AEOD", "AFirst", "AKnown", "AKwKwK"],
            "lzwW": ["ARead", "AClear", "AClearAgain", "AEOD", "AFirst", "AKnown", "AKwKwK"],
            "lzwWF": ["ARead", "AClear", "AClearAgain", "AEOD", "AFirst", "AKnown", "AKwKwK"],
-           "rl3": ["AReadLen", "AEOD", "ALiteral", "ARepeat"], "rl2": [],
+           "rl3": ["AReadLen", "AEOD", "ALiteral", "ARepeat"], "rl2": [], "sdx": [],
+           "fl": ["AOneShot", "AFeed", "AExcept", "AEndOfData"],
            "af": ["AHexStrip", "AHexEOD", "AUnhex", "AStart", "AEnd", "ACore"], "pr": []}
     # which emitted enumeration is replayed for which module, and how
     plan = [("sd", "sd", "sd", {"variants": (0,) if quick else (0, 1)}),
             ("fc", "fc", "fc", {"trace_stride": 8 if quick else 40}),
             ("lzwF", "lzwF", "lzw", {"maps": 1 if quick else 2, "want": ("full", "kwkwk")}),
-            ("lzwW", "lzwW", "lzw", {"maps": 1 if quick else 2, "want": ("width", "kwkwk")}),
-            ("lzwWF", "lzwWF", "lzw", {"maps": 1 if quick else 2, "want": ("width", "full")}),
+            ("lzwW", "lzwWc" if lzw_dev else "lzwW", "lzw", {"maps": 1 if quick else 2, "want": ("width", "kwkwk", "ec0", "trail")}),
+            ("lzwWF", "lzwWFc" if lzw_dev else "lzwWF", "lzw", {"maps": 1 if quick else 2, "want": ("width", "full", "ec0")}),
+            ("sdx", "sdx", "sdx", {"variants": (0,)}), ("fl", "fl", "fl", {}),
             ("rl3", "rl3", "rl", {"H": 3}), ("rl2", "rl2", "rl", {"H": 2}),
             ("af", "afc" if asc_dev else "af", "af", {}),
             ("pr", "prc" if png_dev else "pr", "pr", {"stride_pdf": 2 if quick else 1})]
@@ -1043,7 +1396,7 @@ def run(ck):
             progressed = True
         if not progressed:
             time.sleep(0.05)
-    for mod, k in (("AsciiFrame", "afr"), ("Predictor", "prr")):
+    for mod, k in (("AsciiFrame", "afr"), ("Predictor", "prr"), ("LZW", "lzwr")):
         if k in futs:
             r = futs[k].result().res
             ck.add_tlc(r, jobs[k].label)
@@ -1052,16 +1405,22 @@ def run(ck):
             if r.ok:
                 ck.note("%s: the listed deviations no longer break the invariants of the as-coded model" % mod)
     drift = {}
+    ext = {}
     for k, f in rfut.items():
         r = f.result()
         merge(ck, r["log"])
-        drift[jobs[k].label] = r.get("drift", 0)
+        if "ext" in r:
+            ext[{"sdx": "stream_length_and_fallback", "fl": "flate_recovery"}[k]] = r["ext"]
+        else:
+            drift[jobs[k].label] = r.get("drift", 0)
         if "traces" in r:
             sets["chain"] = sets["chain"] + r["traces"]["chain"]
         _t("replay merged " + k)
     gf["chain"] = pool.submit(corruption_guard, ck, "chain", sets["chain"])
     vf["chain"] = pool.submit(validate_traces, ck, rep, "chain", sets["chain"])
     ck.extra["model_code_drift"] = drift
+    ck.extra["extended_coverage"] = ext
+    report_extended(ck, ext)
     if any(drift.values()):
         ck.note("spec/code drift (real result satisfies the property, the model predicted otherwise): %r" % drift)
     lzw_t, rl_t, pred_t, chain_traces = sets["lzw"], sets["rl"], sets["pred"], sets["chain"]
@@ -1117,8 +1476,7 @@ def replay(path):
                 print("objects read from the stream object on:", seq)
             got = d.getobj(case["objid"]).get_data()
         elif part == "lzw":
-            from pdfminer.lzw import lzwdecode
-            got = lzwdecode(case["enc"])
+            got, exc, _ev = so.lzw_events(case["enc"], case.get("ec", 1))
         elif part == "rl":
             from pdfminer.runlength import rldecode
             got = rldecode(case["enc"])
